@@ -481,3 +481,20 @@ def push (validateFirst : Bool) (g : Graph) (p : PSet) : Graph × PushErr :=
     (pushCommit g p, pushCheck g p)
 
 end AITB.MS
+
+/-! ## decidable checkers evaluated by the driver on the implementation's exact output (soundness: Props/C06) -/
+namespace AITB.MS
+
+/-- "is a discount": finite and in (0,1] -/
+def inUnitB (d : XRat) : Bool := match d with
+  | .fin q => decide (0 < q) && decide (q ≤ 1)
+  | _ => false
+
+/-- property clause for one row: finite entries in [-tol, 1+tol], sum within `slack` of one -/
+def rowDistB (slack : Rat) (row : List XRat) : Bool :=
+  row.all (fun v => match v with | .fin q => decide (-tol ≤ q) && decide (q ≤ 1 + tol) | _ => false) &&
+  (match sumX row with
+   | .fin s => decide (absQ (s - 1) ≤ slack)
+   | _ => false)
+
+end AITB.MS
